@@ -255,6 +255,13 @@ func vfDrawC01Conf(t *rapid.T) (c *vfC01Conf) {
 		cl := &vfC01Client{Name: "kid laptop"}
 		cl.IDKind = rapid.SampledFrom([]string{"ip", "cidr", "clientid"}).Draw(t, "client_idkind")
 		cl.IP = netip.MustParseAddr("192.0.2.10")
+		if cl.IDKind == "ip" {
+			// also a link-local address, which identifies a client only together with its zone, and a global IPv6 one
+			cl.IP = netip.MustParseAddr(rapid.SampledFrom([]string{"192.0.2.10", "192.0.2.10", "fe80::aa%eth0", "2001:db8::10"}).Draw(t, "client_ip"))
+			if cl.IP.Zone() != "" {
+				vfC01.Class("client:identified_by_zoned_link_local_address")
+			}
+		}
 		cl.Subnet = netip.MustParsePrefix("192.0.2.0/28")
 		cl.ClientID = "kid-laptop"
 		cl.OwnSettings = rapid.Bool().Draw(t, "client_ownsettings")
